@@ -107,7 +107,13 @@ func (r *c07Recorder) sink(point string, args ...any) {
 	switch point {
 	case "repo.clone":
 		ev.From = r.treeID(args[0], false)
-		ev.To = r.treeID(args[1], true)
+		if fmt.Sprintf("%p", args[0]) == fmt.Sprintf("%p", args[1]) {
+			// no copy at all: the "private" tree is the published one (an address is reused only for a
+			// tree that is gone, the source of the copy is not)
+			ev.To = ev.From
+		} else {
+			ev.To = r.treeID(args[1], true)
+		}
 	case "repo.mutated", "repo.swap", "repo.search":
 		ev.Tree = r.treeID(args[0], false)
 	}
@@ -237,7 +243,12 @@ func c07Round(rec *c07Recorder, nw, nr, nops, nlook int, seed int64) ([]c07Event
 
 	// every source owns /s<k>/guard through a permanent rule set, so that spoiled operations of
 	// other sources collide with it
+	// (every third round starts from the empty repository instead: the first change of all is traced too)
 	for _, s := range srcs {
+		if seed%3 == 0 { //nolint:mnd
+			break
+		}
+
 		rs := &rconfig.RuleSet{
 			MetaData: rconfig.MetaData{Source: fmt.Sprintf("guard%d", s)}, Version: rconfig.CurrentRuleSetVersion,
 			Name: "guard",
@@ -291,19 +302,23 @@ func c07Round(rec *c07Recorder, nw, nr, nops, nlook int, seed int64) ([]c07Event
 
 			rng := rand.New(rand.NewSource(seed*100 + int64(src))) //nolint:gosec
 			g := goid()
-			exists, ver := false, 0
+			exists, ver, refused := false, 0, false
 
 			for i := 0; i < nops; i++ {
 				kind, spoil := "update", 0
 
 				switch {
+				case !exists && refused && rng.Intn(2) == 0:
+					// an update for a source whose creation was refused (as the kubernetes provider sends it
+					// when the resource is corrected): nothing is known about the source, it is a creation
 				case !exists:
 					kind = "add"
 				case rng.Intn(6) == 0:
 					kind = "delete"
 				}
 
-				if kind != "delete" && nw > 1 && rng.Intn(7) == 0 {
+				// (without the guards nothing would refuse a spoiled change)
+				if kind != "delete" && nw > 1 && seed%3 != 0 && rng.Intn(7) == 0 {
 					spoil = 1 + (src % nw) // another source
 				}
 
@@ -331,6 +346,8 @@ func c07Round(rec *c07Recorder, nw, nr, nops, nlook int, seed int64) ([]c07Event
 				}
 
 				rec.add(c07Event{Ev: "opend", G: g, Src: src, Result: res})
+
+				refused = err != nil && kind == "add"
 
 				if err == nil {
 					if kind == "delete" {
